@@ -32,3 +32,7 @@ package packets
 //@ props C03 C04
 //@ requires p != nil
 //@ ensures [C04] result != nil && isfresh(result) && result.PacketID == p.PacketID
+
+//@ func (*Pingreq).NewPingresp
+//@ props C01
+//@ ensures result != nil && isfresh(result)
